@@ -253,6 +253,19 @@ def distinct_tasks():
     return out
 
 
+def check_reserved():
+    """K-reserved: a dict parameter that uses the serialiser's marker keys reads as a nested task / enum."""
+    a = Holder(v=Leaf(1))
+    b = Holder(v={'_is_task': True, '__class__': f'{Leaf.__module__}.Leaf', 'x': 1})
+    if a != b and a.cache_key == b.cache_key:
+        return f'distinct tasks share the cache key {a.cache_key}: {a!r} and {b!r} (a dict parameter with the reserved key _is_task serialises exactly like a nested task)'
+    c = Holder(v=Color.RED)
+    d = Holder(v={'_is_enum': True, '__class__': f'{Color.__module__}.Color', 'name': 'RED'})
+    if c != d and c.cache_key == d.cache_key:
+        return f'distinct tasks share the cache key {c.cache_key}: {c!r} and {d!r} (reserved key _is_enum)'
+    return None
+
+
 def check_c07(tier):
     from labtech.storage import LocalStorage
     ts = distinct_tasks()
@@ -348,7 +361,10 @@ def main():
     import replay.values as V          # classes must live in an importable module (their module name is part of the cache key)
     fn = {'C15': V.check_c15, 'C07': V.check_c07, 'C09': V.check_c09}[a.prop]
     try:
-        why, n = fn(a.tier)
+        if 'dict-never-reads-as-task' in a.obligation:
+            why, n = V.check_reserved(), 2
+        else:
+            why, n = fn(a.tier)
         res = dict(reproduced=bool(why), level='api', summary=why or '', cases=n)
     except Exception:
         res = dict(reproduced=False, error=traceback.format_exc()[-1800:])
